@@ -54,7 +54,7 @@ func c02Paths(e *c02Env) (files, dirs, missing []string) {
 		root = e.dir
 	}
 	j := func(s string) string { return filepath.Join(root, s) }
-	return []string{j("a"), j("b"), j("d/x")}, []string{j("d"), j("e")}, []string{j("nope"), j("d/nope"), j("nope/x")}
+	return []string{j("a"), j("b"), j("d/x"), j("big")}, []string{j("d"), j("e")}, []string{j("nope"), j("d/nope"), j("nope/x")}
 }
 
 func c02Setup(u *vfUnit, e *c02Env) {
@@ -65,6 +65,7 @@ func c02Setup(u *vfUnit, e *c02Env) {
 		os.WriteFile(filepath.Join(e.dir, "a"), vfPattern(1, 0, 5000), 0o644)
 		os.WriteFile(filepath.Join(e.dir, "b"), vfPattern(2, 0, 100), 0o644)
 		os.WriteFile(filepath.Join(e.dir, "d/x"), vfPattern(3, 0, 10), 0o644)
+		os.WriteFile(filepath.Join(e.dir, "big"), vfPattern(4, 0, 300000), 0o644)
 	} else {
 		e.store = vfNewStore()
 		e.store.Mkdir("/d")
@@ -72,11 +73,12 @@ func c02Setup(u *vfUnit, e *c02Env) {
 		e.store.Put("/a", vfPattern(1, 0, 5000))
 		e.store.Put("/b", vfPattern(2, 0, 100))
 		e.store.Put("/d/x", vfPattern(3, 0, 10))
+		e.store.Put("/big", vfPattern(4, 0, 300000))
 	}
 }
 
 // c02Program generates n well-formed requests with unique ids.
-func c02Program(r *vfRand, e *c02Env, n int) ([]vfPkt, int) {
+func c02Program(r *vfRand, e *c02Env, n int, bigReads bool) ([]vfPkt, int) {
 	maxFrames := 0
 	files, dirs, missing := c02Paths(e)
 	anyPath := func() string {
@@ -116,6 +118,10 @@ func c02Program(r *vfRand, e *c02Env, n int) ([]vfPkt, int) {
 				p.Len = 0
 			case 1:
 				p.Len = 1<<32 - 1
+				if bigReads {
+					// with a raised maximum payload the answer to such a read is a frame beyond 256 KiB: still one answer
+					p.Len, p.Off = uint32(vfPick(r, []int{262131, 262144, 262145, 300000, 1<<32 - 1})), uint64(r.Intn(5000))
+				}
 			default:
 				p.Len = uint32(r.Intn(4000))
 			}
@@ -203,6 +209,11 @@ func c02Run(u *vfUnit) {
 		if kind == vfOS && pi%4 == 3 {
 			cfg.ReadOnly = true
 		}
+		// every sixth program of a unit (both servers): the maximum payload raised beyond the 256 KiB message limit
+		if pi%6 == 4 {
+			cfg.MaxTx = 300000
+			u.Count("programs_with_raised_max_payload", 1)
+		}
 		if kind == vfRS {
 			cfg.H = e.store.Handlers(vfHandlerOpt{OpenFile: pi%2 == 0, CmdAll: true, ListAll: pi%3 == 0})
 			if profile > 0 {
@@ -242,7 +253,7 @@ func c02Run(u *vfUnit) {
 			u.Inconclusive("connect: %v", err)
 			return
 		}
-		prog, maxFrames := c02Program(r, e, depth)
+		prog, maxFrames := c02Program(r, e, depth, cfg.MaxTx > 0)
 		label := fmt.Sprintf("%v/alloc=%v/procs=%d/depth=%d/profile=%d", kind, alloc, procs, depth, profile)
 		if cfg.ReadOnly {
 			label += "/read-only"
@@ -264,7 +275,7 @@ func c02Run(u *vfUnit) {
 			}
 			h := hr[0].Handle
 			pool := 1 + r.Intn(3)
-			sizes := []int{5000, 100, 10}
+			sizes := []int{5000, 100, 10, 300000}
 			prog = prog[:0]
 			for i := 0; i < depth; i++ {
 				id := uint32(7 + r.Intn(pool))
